@@ -51,7 +51,11 @@ fn run_c12(tier: &str, root: u64, workers: usize, scale: u64) -> i32 {
         let mut st = c12::Stats::default();
         let r = std::panic::catch_unwind(std::panic::AssertUnwindSafe(|| c12::run_one(root, i, max_plans, &mut st)));
         match r {
-            Ok(v) => (st, v),
+            Ok(v) => {
+                // only the first failing world per violation class pays for minimisation
+                let v = v.map(|v| if util::claim_minimisation(&v.class) { verif_sim::climin::minimise_c12(&v) } else { v });
+                (st, v)
+            }
             Err(p) => {
                 eprintln!("HARNESS ERROR: {}", util::panic_message(&p));
                 std::process::exit(2);
